@@ -730,7 +730,8 @@ N_SCEN = {
 def plan(tier, seed):
     tasks = []
     only = [x for x in os.environ.get("VF_C29_ONLY", "").split(",") if x]  # development aid: "vdb:install,binpkg:replace"
-    for repo, op in COMBOS:
+    # cheap combinations first, so that a run under load has covered every repo kind before the budget guard hits
+    for repo, op in sorted(COMBOS, key=lambda c: (c[0] != "binpkg", ["uninstall", "install", "replace"].index(c[1]))):
         if only and f"{repo}:{op}" not in only:
             continue
         nt, n = N_SCEN[tier][repo]
